@@ -1,5 +1,6 @@
 import NbdimeProofs.Lemmas.SeqAbstract
 import NbdimeModel
+import NbdimeProofs.Lemmas.Resolve
 /-
   C06 — changes at separate positions combine. Locality of Python's `patch_list` cursor semantics:
   a diff whose entries fall into two groups separated by a position `x` (everything of the first
@@ -49,7 +50,8 @@ theorem C06_disjoint_list_patches {α} (ops1 ops2 : List (SOp α)) (a : List α)
 /-- a one-sided decision applies exactly the diff of the side that changed -/
 theorem C06_onesided_applies_local (base : J) (d : Decision) (ld : List Op)
     (ha : d.action = "local") (hl : d.localDiff = some ld) : resolveAction base d = .ok ld := by
-  unfold resolveAction
+  rw [resolveAction_leaf base d (keyBased_false_of d (by simp [ha]) (by simp [ha]) (by simp [ha]))]
+  unfold resolveLeaf
   simp [ha, hl]
 
 /-- non-vacuity: local removes item 0, remote appends after item 2 of a 3-item list -/
